@@ -377,14 +377,15 @@ func main() {
 		MaxEvalsPerProcess: 900,
 		Run:                run,
 		Setup:              func(string) { kit.Quiet() },
-		Rule: "unit = (store, prefix history, faulted block kind, following blocks, single/double fault | read fault); choice points: fault position 0..K " +
-			"(0 = none; K = row writes of the block's transaction, measured), recovery (retry on same objects / restart), second fault position, restart before the following blocks; " +
+		Rule: "unit = (store, prefix history, faulted block kind, following blocks, single/double fault | read fault | context cancellation); choice points: fault position 0..K+1 " +
+			"(0 = none; K = row writes of the block's transaction, measured; K+1 = the COMMIT fails; cancel units: the context is cancelled during write 1..K), recovery (retry on same objects / restart), second fault position, restart before the following blocks; " +
 			"all combinations explored. non-trivial = at least one injected fault; distinct = distinct (unit, fault positions, recoveries, final observation)",
 		Assumptions: []string{
 			"a storage fault = one row write (INSERT/UPDATE/DELETE, including cascaded deletes) failing with an SQLite ABORT raised by a trigger; SQLite's own atomic commit is trusted",
 			"a storage fault on the READ path (readfault units) = the tree's node tables (…rht) renamed away for the duration of one ProcessBlock, so every statement touching them fails inside SQLite; placed where the frontier has to be rebuilt (after a restart, after a rolled-back attempt, after a reorg)",
 			"a process kill = the fault followed by dropping every in-memory object and re-opening the same file with the real constructor",
-			"context cancellation in the middle of a block cannot be placed at a chosen statement (database/sql rolls back from its own goroutine) and is not covered; see DESIGN §3.4/§8",
+			"context cancellation mid-block (cancel units): the block's context is cancelled while the k-th row write executes, for every k: a BEFORE trigger calls an SQL function registered on the store's own connection, which cancels the context and returns only when database/sql's watcher goroutine has marked the transaction done and is parked on its close mutex; the statement finishes, the watcher rolls back, every later statement and aggkit's deferred Rollback see sql.ErrTxDone, so aggkit's rollback callbacks do NOT run; recovery = retry on the same objects with a fresh context, or restart then retry",
+			"a failing COMMIT is fault position K+1 (deferred foreign-key violation planted by the row-write triggers): every statement succeeds, Commit reports the error, database/sql considers the transaction finished, the deferred Rollback sees sql.ErrTxDone and the rollback callbacks do not run either",
 			"the clause 'no later block is recorded while an earlier one is missing' is checked in the driver units: the real EVMDriver.Sync with its real retry loop over the real store, a fault at every row write persisting for 1..3 consecutive attempts (3 = the retry limit: the driver gives up), thorough: also every (first, second) position pair; sync.LogFatalf (process exit) is turned into the end of the driver goroutine",
 		},
 		Bounds: func(tier string) map[string]any {
